@@ -1,5 +1,6 @@
 import Driver.GeoWire
 import Midgard.Model.Rotation
+import Midgard.Model.Frames
 import Midgard.Model.Geodetic
 import Midgard.Generated.Ellipsoids
 
@@ -65,8 +66,66 @@ def handleAlg : List String → Option String
 
 end Alg
 
+/-! array level (`Model/Frames.lean`): `rows KIND K i₁ … i_K data…` — the rows `i₁ … i_K` of the reference positions and
+of the values (`array[idx]`: an integer, a slice, a list or a mask written as row numbers), converted row by row, each row
+in the frame of its own reference position.  One row of `data` is `lat lon | d` (ENU kinds) or `r v | w` (ACR kinds). -/
+
+def chunk {β : Type} (k : Nat) (l : List β) : List (List β) :=
+  if k = 0 then [] else go l.length l
+where
+  go : Nat → List β → List (List β)
+    | 0, _ => []
+    | _, [] => []
+    | f + 1, l => l.take k :: go f (l.drop k)
+
+def refLL? : List Float → Option (PosObj Float × List Float)
+  | lat :: lon :: rest => some (⟨V3.zero, V3.zero, lat, lon⟩, rest)
+  | _ => none
+def refRV? : List Float → Option (PosObj Float × List Float)
+  | x :: y :: z :: vx :: vy :: vz :: rest => some (⟨⟨x, y, z⟩, ⟨vx, vy, vz⟩, 0, 0⟩, rest)
+  | _ => none
+def v3? : List Float → Option (V3 Float)
+  | [x, y, z] => some ⟨x, y, z⟩
+  | _ => none
+def v6? : List Float → Option (V6 Float)
+  | [x, y, z, vx, vy, vz] => some ⟨⟨x, y, z⟩, ⟨vx, vy, vz⟩⟩
+  | _ => none
+
+def rowsCmd {β : Type} (width : Nat) (ref? : List Float → Option (PosObj Float × List Float)) (val? : List Float → Option β)
+    (conv : List (PosObj Float) → List β → List β) (render : β → String) (idx : List Nat) (xs : List Float) :
+    Option String := do
+  let rows ← (chunk width xs).mapM (fun r => do
+    let (o, rest) ← ref? r
+    let v ← val? rest
+    pure (o, v))
+  if rows.length * width != xs.length then none
+  let out := conv (takeRows (rows.map (·.1)) idx) (takeRows (rows.map (·.2)) idx)
+  pure (" ".intercalate (out.map render))
+
 /-- commands through libm (`f` mode only) -/
 def handleF : List String → Option String
+  | "rows" :: kind :: k :: rest => do
+    let k ← k.toNat?
+    let idx ← (rest.take k).mapM String.toNat?
+    let xs ← parseAll? (α := Float) (rest.drop k)
+    match kind with
+    | "trs2enu" => rowsCmd 5 refLL? v3? rowsTrs2Enu showV3 idx xs
+    | "enu2trs" => rowsCmd 5 refLL? v3? rowsEnu2Trs showV3 idx xs
+    | "d6trs2enu" => rowsCmd 8 refLL? v6? rowsTrs2EnuPosVel showV6 idx xs
+    | "d6enu2trs" => rowsCmd 8 refLL? v6? rowsEnu2TrsPosVel showV6 idx xs
+    | "trs2acr" => rowsCmd 12 refRV? v6? rowsTrs2Acr showV6 idx xs
+    | "acr2trs" => rowsCmd 12 refRV? v6? rowsAcr2Trs showV6 idx xs
+    | _ => none
+  | "rowsazel" :: rest => do
+    -- per row: lat lon of the observer, TRS coordinates of observer and target
+    let xs ← parseAll? (α := Float) rest
+    let rows ← (chunk 8 xs).mapM (fun r => match r with
+      | [lat, lon, px, py, pz, qx, qy, qz] =>
+        some ((⟨⟨px, py, pz⟩, V3.zero, lat, lon⟩ : PosObj Float), (⟨⟨qx, qy, qz⟩, V3.zero, 0, 0⟩ : PosObj Float))
+      | _ => none)
+    if rows.length * 8 != xs.length then none
+    let out := rowsAzElZd (rows.map (·.1)) (rows.map (·.2))
+    pure (" ".intercalate (out.map (fun t => s!"{Wire.render t.1} {Wire.render t.2.1} {Wire.render t.2.2}")))
   | ["R", k, a] => do
     let a : Float ← Wire.parse? a
     (axisCS? k (Trig.cos a) (Trig.sin a)).map showM3
